@@ -58,6 +58,28 @@ pub fn stream(seed: u64, count: u64) -> String {
     let mut r = Rng(seed ^ 0xA5A5_5A5A_1234_5678);
     let mut o = String::new();
     for i in 0..count {
+        if i % 16 == 9 {
+            // monotonicity of the pro-rata fee in the unspent quote (hypothesis FeeMono of C09)
+            let small = r.pct(50);
+            let q_total: u128 = if small { 1 + r.below(5000) as u128 } else { (1 + r.bigr(96)).min((1u128 << 96) - 1) };
+            let f: u128 = if small { r.below(2000) as u128 } else { r.bigr(96).min((1u128 << 96) - 1) };
+            let pick = |r: &mut Rng| -> u128 {
+                if q_total > u64::MAX as u128 { r.big(96) % (q_total + 1) } else { r.below(q_total as u64 + 1) as u128 }
+            };
+            let (mut q1, mut q2) = (pick(&mut r), pick(&mut r));
+            if r.pct(40) { q2 = (q1 + 1 + r.below(3) as u128).min(q_total); }
+            if q1 > q2 { std::mem::swap(&mut q1, &mut q2); }
+            let fee_for = |q: u128| -> Option<u128> {
+                catch_unwind(AssertUnwindSafe(|| {
+                    let ratio = Decimal::from_u128(q).unwrap().checked_div(Decimal::from_u128(q_total).unwrap()).unwrap();
+                    ratio.checked_mul(Decimal::from(f)).and_then(|p| p.round_dp_with_strategy(0, RoundingStrategy::MidpointAwayFromZero).to_u128())
+                })).ok().flatten()
+            };
+            if let (Some(n1), Some(n2)) = (fee_for(q1), fee_for(q2)) {
+                o.push_str(&format!("UFM {} {} {} {} {} {}\n", f, q_total, q1, q2, n1, n2));
+            }
+            continue;
+        }
         match i % 8 {
             0 => {
                 let s = dec_str(&mut r);
